@@ -178,7 +178,9 @@ def run(ctx):
             n_upd += 1
             fin = any(c['kind'] == 'IsFinite' and ((c['truth'] is True)) for c in gi.conds(bi)) or any(c['kind'] == 'IsFinite' for c in gi.conds(bi))
             # accepted: `if !sum.is_finite() { panic }` -> update on the finite edge
-            fin_edge = any(c['kind'] == 'IsFinite' and c['truth'] is True for c in gi.conds(bi))
+            cs_ = gi.conds(bi)
+            fin_edge = any(c['kind'] == 'IsFinite' and c['truth'] is True for c in cs_) or \
+                (any(c['kind'] == 'IsInfinite' and c['truth'] is False for c in cs_) and any(c['kind'] == 'IsNan' and c['truth'] is False for c in cs_))
             okf &= fin_edge
         ctx.verdict(okf and n_upd >= 4, rule, rule + ':finite-payoffs', 'every terminal\'s payoff sum passes is_finite before it enters the range computation', gi.where(0), '%d range updates, all on the finite edge: %s' % (n_upd, okf),
                     breaks='non-finite payoffs reach the solver')
